@@ -11,7 +11,7 @@ import json, os, re, shutil, subprocess
 from lib import vf
 
 MANIFEST = {
-  'text': "Coq theorems over a model of the availability part of ExprSemanticsChecker (checkVariable/checkAvailableContext, checkFuncCall/checkSpecialFunctionAvailability, traversal with narrowing) on the shared expression AST and of the routing of workflow keys through rule_expression.go: every variable occurrence at any depth and in any letter case is reported iff it is undefined or its lower-cased name is not in the availability list (same for calls of the five special functions; other functions never); the table WorkflowKeyAvailability returns, regenerated from the code on every run, equals GitHub's documentation table transcribed once into Coq (as finite maps), an unlisted key allows nothing; for every call site of rule_expression.go (extracted with go/ast on every run and proved equal to the hand-written list) the key it passes lists exactly what the longest listed key that is a prefix of the site's canonical path lists. EXHAUSTIVE correspondence: every (position, context) and (position, special function) pair x 3 embeddings (11 in the thorough tier) is planted into an otherwise clean every-key workflow and linted through the exported Linter; the diagnostics (class, column) are compared with the model evaluated by vm_compute and with the verdict demanded by the documentation table.",
+  'text': "Coq theorems over a model of the availability part of ExprSemanticsChecker (checkVariable/checkAvailableContext, checkFuncCall/checkSpecialFunctionAvailability, traversal with narrowing) on the shared expression AST and of the routing of workflow keys through rule_expression.go: every variable occurrence at any depth and in any letter case is reported iff it is undefined or its lower-cased name is not in the availability list (same for calls of the five special functions; other functions never); the table WorkflowKeyAvailability returns, regenerated from the code on every run, equals GitHub's documentation table transcribed once into Coq (as finite maps), an unlisted key allows nothing; for every call site of rule_expression.go (extracted with go/ast on every run and proved equal to the hand-written list) the key it passes lists exactly what the longest listed key that is a prefix of the site's canonical path lists. EXHAUSTIVE correspondence: every (position, context) and (position, special function) pair x 3 embeddings (11 in the thorough tier) is planted into an otherwise clean every-key workflow and linted through the exported Linter; the diagnostics (class, column) are compared with the model evaluated by vm_compute and with the verdict demanded by the documentation table. Special functions are also planted with arguments no overload accepts: their availability verdict does not depend on that (repair 35c1157; the oracle sigok of the model is 'always true' for the code as it is, the code before the repair is refuted).",
   'note': "Trusted: Coq kernel; the hand-written model (correspondence-checked on the exhaustive enumeration, not proved equal to the Go code); the canonical path assigned by hand to every call site (Coq) and to every workflow position (Go harness); the go/ast extractor; spec_table.md being a verbatim copy of the documentation table in the repository (testdata/ok.md, 34 rows — the repository's availability.go is generated from exactly these rows). Not modelled: type checking (whether an overload accepts a call is an oracle parameter; calls in the enumeration are well-typed), parse.go (positions that are never routed to the expression checker are C03's subject), non-ASCII letter case.",
   'technique': "machine-checked proof in Coq (structural induction over expression trees; finite-domain vm_compute lemmas over regenerated tables) + exhaustive vm_compute correspondence against the Go implementation",
 }
